@@ -22,7 +22,7 @@ TEXT_PATS = ["dos", "unix", "mac", "mixeol"]
 ADDRS = [0, 1, 0xFF, 0x100, 0x0E00, 0x1234, 0x3C55, 0x553C, 0x7FFF, 0x8000, 0xFF00, 0xFFFF,
          0x000A, 0x0A00, 0x300A, 0x0D0A]        # bytes that are line ends in text
 NAMES = ["", "A", "AB", "PROG", "z9", "Hello", "ABCDEFG", "ABCDEFGH", "ABCDEFGHI", "abcdefghijkl", "A-B", "9", "MixedCas",
-         "GAME.V2", "A.B", "V.1.2", "END.", ".CFG", "A,B", "X;Y", "#1", "$FF", "'Q'", "[Z]", "A+B", "0", "007"]        # any printable character may be part of a name
+         "GAME.V2", "A.B", "V.1.2", "END.", ".CFG", "A,B", "X;Y", "#1", "$FF", "'Q'", "[Z]", "A+B", "0", "007", "TMP~1", "~", "a{|}`z", "_", "@HOME", "100%", "A=B", "(X)", "<>", "?*", "&&", "!"]        # any printable character may be part of a name
 
 ALPHA = [
     C.spec("A", n=1), C.spec("B", n=255, pat="m00.p0"), C.spec("C", n=256, pat="55"), C.spec("EMPTY", n=0),
